@@ -25,7 +25,10 @@ M(s) == [k |-> "m", s |-> s]
 MarkerSrc(a) == IF a.k = "m" THEN "{{" \o a.s \o "}}" ELSE a.s
 RECURSIVE Render(_)
 Render(atoms) == IF atoms = <<>> THEN "" ELSE MarkerSrc(Head(atoms)) \o Render(Tail(atoms))
-MetaText(path, f) == IF f.meta THEN "Title: t\n" \o (IF f.base # "" THEN "Transclude Base: " \o f.base \o "\n" ELSE "") \o "\n" ELSE ""
+RECURSIVE RepX(_)
+RepX(n) == IF n = 0 THEN "" ELSE "x" \o RepX(n - 1)
+\* pad (optional field): an "Abstract" of that many characters before the other keys -- the size of a metadata block has no bearing on what is stripped or honoured
+MetaText(path, f) == IF f.meta THEN "Title: t\n" \o (IF "pad" \in DOMAIN f THEN "Abstract: " \o RepX(f.pad) \o "\n" ELSE "") \o (IF f.base # "" THEN "Transclude Base: " \o f.base \o "\n" ELSE "") \o "\n" ELSE ""
 
 \* ---- the machine -----------------------------------------------------------------------------------------------
 \* st = [frames, pstack, manifest, done, out];  frame = [path, search, buf, pos, depth]
